@@ -160,6 +160,15 @@ func (g *gen) manualWriteStep() Step {
 		s := g.payload()
 		if m == 2 {
 			s = g.redactableLit()
+			if g.chance(0.15) {
+				// raw content the caller got wrong: lone or unbalanced markers
+				s = g.pick([]string{"›", "‹", "›‹", "x›", "‹x", "››"})
+			}
+		}
+		if g.chance(0.08) {
+			// a write of nothing still switches the mode and, in unsafe
+			// mode, opens an envelope
+			s = ""
 		}
 		return Step{A: "mw", I: m, S: Str(s)}
 	case 3:
